@@ -110,6 +110,10 @@ pub enum Op {
     CheckSlashing { u: u8 },
     /// the chain admin migrates one of the contracts to the same code (its `migrate` entry point runs)
     Migrate { c: u8 },
+    /// the owner re-submits the *current* configuration of a contract (a no-op by value): 0 hub params, 1 hub config,
+    /// 2 reward config, 3 dispatcher config, 4-6 dispatcher re-adds an already listed swap denom (usei / kusd / uatom),
+    /// 7 reward contract re-adds its listed swap denom
+    Reconfig { c: u8 },
     Advance { clock: Clock },
     Slash { v: u8, permille: u16, unbonding: bool },
     Donate { to: u8, coin: u8, amt: Amt },
@@ -146,6 +150,7 @@ pub enum ROp {
     UpdateIndex { by: String },
     CheckSlashing { by: String },
     Migrate { contract: String },
+    Reconfig { which: u8 },
     Advance { secs: u64 },
     Slash { validator: String, permille: u16, unbonding: bool },
     Donate { to: String, denom: String, amount: u128 },
@@ -193,6 +198,7 @@ impl ROp {
             ROp::UpdateIndex { .. } => "update_index",
             ROp::CheckSlashing { .. } => "check_slashing",
             ROp::Migrate { .. } => "migrate",
+            ROp::Reconfig { .. } => "reconfig",
             ROp::Advance { .. } => "advance",
             ROp::Slash { .. } => "slash",
             ROp::Donate { .. } => "donate",
@@ -259,6 +265,7 @@ pub struct Profile {
     pub update_index: u32,
     pub check_slashing: u32,
     pub migrate: u32,
+    pub reconfig: u32,
     pub advance: u32,
     pub slash: u32,
     pub donate: u32,
@@ -297,6 +304,7 @@ impl Profile {
             update_index: 4,
             check_slashing: 2,
             migrate: 1,
+            reconfig: 1,
             advance: 14,
             slash: 4,
             donate: 2,
@@ -398,6 +406,7 @@ pub fn op_strategy(p: &Profile) -> BoxedStrategy<Op> {
     add(p.update_index, prop_oneof![5 => Just(0u8), 1 => 1u8..4].prop_map(|by| Op::UpdateIndex { by }).boxed());
     add(p.check_slashing, (0u8..6).prop_map(|u| Op::CheckSlashing { u }).boxed());
     add(p.migrate, prop_oneof![2 => Just(0u8), 2 => Just(1u8), 1 => 2u8..5].prop_map(|c| Op::Migrate { c }).boxed());
+    add(p.reconfig, (0u8..8).prop_map(|c| Op::Reconfig { c }).boxed());
     add(p.advance, clock_strategy().prop_map(|clock| Op::Advance { clock }).boxed());
     add(
         p.slash,
@@ -1140,6 +1149,7 @@ impl Interp {
                 vec![ROp::UpdateIndex { by: if *by == 0 { UPDATER.to_string() } else { self.user(*by - 1) } }]
             }
             Op::CheckSlashing { u } => vec![ROp::CheckSlashing { by: self.user(*u) }],
+            Op::Reconfig { c } => vec![ROp::Reconfig { which: *c % 8 }],
             Op::Migrate { c } => vec![ROp::Migrate { contract: [HUB, REWARD, DISP, REG, BSEI][(*c as usize) % 5].to_string() }],
             Op::Advance { clock } => {
                 let secs = match clock {
@@ -1372,6 +1382,64 @@ impl Interp {
             }
             ROp::UpdateIndex { by } => w.tx(by, HUB, &HubExec::UpdateGlobalIndex { airdrop_hooks: None }, &[]),
             ROp::CheckSlashing { by } => w.tx(by, HUB, &HubExec::CheckSlashing {}, &[]),
+            ROp::Reconfig { which } => {
+                let p = hub_params(w);
+                match which {
+                    0 => w.tx(
+                        OWNER,
+                        HUB,
+                        &HubExec::UpdateParams {
+                            epoch_period: Some(p.epoch_period),
+                            unbonding_period: Some(p.unbonding_period),
+                            peg_recovery_fee: Some(p.peg_recovery_fee),
+                            er_threshold: Some(p.er_threshold),
+                            paused: Some(p.paused.unwrap_or(false)),
+                            reward_denom: Some(p.reward_denom.clone()),
+                        },
+                        &[],
+                    ),
+                    1 => w.tx(
+                        OWNER,
+                        HUB,
+                        &HubExec::UpdateConfig {
+                            rewards_dispatcher_contract: Some(DISP.into()),
+                            validators_registry_contract: Some(REG.into()),
+                            bsei_token_contract: None,
+                            stsei_token_contract: None,
+                            airdrop_registry_contract: Some(AIRDROP.into()),
+                            rewards_contract: Some(REWARD.into()),
+                            update_reward_index_addr: Some(UPDATER.into()),
+                        },
+                        &[],
+                    ),
+                    2 => w.tx(
+                        OWNER,
+                        REWARD,
+                        &basset::reward::ExecuteMsg::UpdateConfig { hub_contract: Some(HUB.into()), reward_denom: Some(KUSD.into()), swap_contract: Some(SWAP.into()) },
+                        &[],
+                    ),
+                    4 | 5 | 6 => w.tx(
+                        OWNER,
+                        DISP,
+                        &basset_sei_rewards_dispatcher::msg::ExecuteMsg::UpdateSwapDenom { swap_denom: [USEI, KUSD, UATOM][(*which - 4) as usize].into(), is_add: true },
+                        &[],
+                    ),
+                    7 => w.tx(OWNER, REWARD, &basset::reward::ExecuteMsg::UpdateSwapDenom { swap_denom: USEI.into(), is_add: true }, &[]),
+                    _ => w.tx(
+                        OWNER,
+                        DISP,
+                        &basset_sei_rewards_dispatcher::msg::ExecuteMsg::UpdateConfig {
+                            hub_contract: Some(HUB.into()),
+                            bsei_reward_contract: Some(REWARD.into()),
+                            stsei_reward_denom: None,
+                            bsei_reward_denom: Some(KUSD.into()),
+                            krp_keeper_address: Some(KEEPER.into()),
+                            krp_keeper_rate: Some(self.cfg.keeper_rate.dec()),
+                        },
+                        &[],
+                    ),
+                }
+            }
             ROp::Migrate { contract } => {
                 let msg = if contract == HUB {
                     to_json_binary(&basset::hub::MigrateMsg {
